@@ -16,7 +16,7 @@ type c18 struct{ base }
 
 func init() {
 	runner.Register(&c18{base{id: "C18", level: "exploration",
-		rule: "exhaustive: every sequence of <=4 (thorough <=5) ops over the management alphabet {create A (2 configs), create B, delete A, delete B, clear A, put A, put B, add index A, delete index A, describe A} on one client; seeded: histories of 60 ops over 3 table names x 2 clients mixing CreateTable (PAY_PER_REQUEST / PROVISIONED with and without throughput / default billing, hash-only and hash+range, GSI/LSI sets), AddTable, DeleteTable, UpdateTable index create/delete, AddIndex, ClearTable, DescribeTable with data operations, queries and batches. After EVERY step ALL tables of ALL clients are observed (DescribeTable incl. per-index schemas and counts, every key, base scan, every index scan) and compared with the per-client catalogue model: an operation on one table or client must not change another; a re-created table starts empty with exactly the declared schema. non-trivial = history creates >=2 tables or re-creates a table and touches >=1 item; distinct by (adapter, op-kind sequence). Prefix-named tables (tbq, tbq_archive, tbq2, xtbq) with a native matcher and updater each: deleting (and re-creating) one leaves the callbacks of the others in force.",
+		rule: "exhaustive: every sequence of <=4 (thorough <=5) ops over the management alphabet {create A (2 configs), create B, delete A, delete B, clear A, put A, put B, add index A, delete index A, describe A} on one client; seeded: histories of 60 ops over 3 table names x 2 clients mixing CreateTable (PAY_PER_REQUEST / PROVISIONED with and without throughput / default billing, hash-only and hash+range, GSI/LSI sets), AddTable, DeleteTable, UpdateTable index create/delete, AddIndex, ClearTable, DescribeTable with data operations, queries and batches. After EVERY step ALL tables of ALL clients are observed (DescribeTable incl. per-index schemas and counts, every key, base scan, every index scan) and compared with the per-client catalogue model: an operation on one table or client must not change another; a re-created table starts empty with exactly the declared schema. non-trivial = history creates >=2 tables or re-creates a table and touches >=1 item; distinct by (adapter, op-kind sequence). Prefix-named tables (tbq, tbq_archive, tbq2, xtbq) with a native matcher and updater each: deleting (and re-creating) one leaves the callbacks of the others in force. The shared generator creates up to three indexes in one UpdateTable request.",
 		assumptions: commonAssumptions}})
 }
 
